@@ -133,6 +133,9 @@ pub enum Ext {
 pub enum Color { Red, Green, Blue }
 
 #[derive(Serialize, Deserialize)]
+pub struct TsColorOpt(pub Color, pub Option<String>, pub Color, pub Option<()>);
+
+#[derive(Serialize, Deserialize)]
 pub struct WithEnum { pub e: Ext, pub c: Color, pub l: Vec<Ext>, pub o: Option<Color>, pub m: BTreeMap<u8, Ext> }
 
 // ---- representations that go through serde's private `Content` buffer
